@@ -12,6 +12,10 @@ fn qgeneric<S: Sc>(qs: &[&RQ<S>]) -> bool {
     qs.iter().all(|q| all_nonzero(&q[..]))
 }
 
+fn zero_q<S: Sc>() -> Quaternion<S> {
+    Quaternion::<S>::zero()
+}
+
 /// ring laws of arbitrary quaternions
 fn algebra<S: Sc>(d: &mut Draw) -> Outcome {
     let p = gquat::<S>(d);
@@ -35,6 +39,17 @@ fn algebra<S: Sc>(d: &mut Draw) -> Outcome {
     ensure_eq!((p + q) * r, p * r + q * r, "distributive-right", "(p+q)r");
     let one = Quaternion::<S>::one();
     ensure_eq!(rq(&one), [S::one(), S::zero(), S::zero(), S::zero()], "one", "one() components");
+    {
+        use num_traits::{One, Zero};
+        ensure!(one.is_one() && zero_q::<S>().is_zero(), "is_one-is_zero", "one().is_one(), zero().is_zero()");
+        ensure_eq!(p.is_one(), rp == [S::one(), S::zero(), S::zero(), S::zero()], "is_one", "p.is_one() iff p = (1; 0,0,0)");
+        let mut m = p;
+        m.set_one();
+        ensure_eq!(m, one, "set_one", "set_one()");
+        let mut m = p;
+        m.set_zero();
+        ensure_eq!(rq(&m), [S::zero(); 4], "set_zero", "set_zero()");
+    }
     ensure_eq!(p * one, p, "one-right", "p * 1");
     ensure_eq!(one * p, p, "one-left", "1 * p");
     let zero = Quaternion::<S>::zero();
